@@ -160,6 +160,8 @@ class FnTr:
             if v.kind == M:
                 return Val(M, "map vopp %s" % v.p(), True)
         if isinstance(e.op, ast.Not) and v.kind == B:
+            if v.text in ("true", "false"):
+                return Val(B, "false" if v.text == "true" else "true")
             return Val(B, "negb %s" % v.p())
         raise Reject("%s: unary operator on kind %s" % (_where(e), v.kind))
 
@@ -251,6 +253,8 @@ class FnTr:
             raise Reject("%s: np.r_ is accepted only as np.r_[<row vector>, <matrix>]" % _where(e))
         v = self.expr(e.value)
         txt = ast.unparse(sl)
+        if txt.startswith("(") and txt.endswith(")"):
+            txt = txt[1:-1]
         if v.kind == M and txt == "(slice(1, None, None), slice(None, None, None))" or v.kind == M and txt == "1:, :":
             return Val(M, "tl %s" % v.p(), False)
         if v.kind == M and txt == "0, :":
@@ -699,7 +703,7 @@ class FnTr:
     def translate(self):
         fn, fs = self.fn, self.fs
         got = [a.arg for a in fn.args.args]
-        if got != list(fs["params"]) or fn.args.vararg or fn.args.kwonlyargs or (fn.args.kwarg and not fs.get("allow_kwargs")):
+        if got != list(fs["params"]) or (fn.args.vararg and not fs.get("allow_varargs")) or fn.args.kwonlyargs or (fn.args.kwarg and not fs.get("allow_kwargs")):
             raise Reject("%s: parameters of %s are %s, expected %s" % (_where(fn), fn.name, got, list(fs["params"])))
         if fn.decorator_list:
             raise Reject("%s: decorator on %s" % (_where(fn), fn.name))
